@@ -175,6 +175,13 @@ func runHarness(verif, repo, prop, harness string, rf *ReplayFile) (string, bool
 	if strings.Contains(string(src), "// race: on") && strings.Contains(s, "WARNING: DATA RACE") {
 		return "REPRODUCED (race detector): \n" + s, true
 	}
+	// harnesses of goroutine-based code: a panic that kills the test binary (a worker goroutine died) is the witness
+	if strings.Contains(string(src), "// crash: violation") && (strings.Contains(s, "\npanic: ") || strings.HasPrefix(s, "panic: ")) && !strings.Contains(s, "test timed out") {
+		return "REPRODUCED (the test binary crashed: a panic escaped on a goroutine of the code under test): \n" + s, true
+	}
+	if strings.Contains(s, "[build failed]") || strings.Contains(s, "[setup failed]") {
+		return "HARNESS-BROKEN (does not build against this tree): \n" + s, false
+	}
 	return s, strings.Contains(s, "REPRODUCED")
 }
 
